@@ -874,6 +874,11 @@ func (env *Env) call(fn string, args []Term) (Term, error) {
 	case "zero":
 		return Term{}, fmt.Errorf("zero() needs a sort; use zero_<Sort>")
 	}
+	if strings.HasPrefix(fn, "is_") {
+		if _, ok := sg.Funs["is-"+fn[3:]]; ok {
+			fn = "is-" + fn[3:]
+		}
+	}
 	fs, ok := sg.Funs[fn]
 	if !ok {
 		return Term{}, fmt.Errorf("unknown function %q", fn)
